@@ -7,6 +7,7 @@ import (
 	"fmt"
 	"go/types"
 	"os"
+	"sort"
 	"strings"
 	"time"
 
@@ -65,6 +66,22 @@ func cmdRun(args []string) int {
 		fmt.Printf("%-40s %-12s paths=%d queries=%d (unknown %d) solver=%.1fs wall=%.1fs outcomes=%v\n", fn, s.Verdict, s.Paths, s.Queries, s.Unknown, s.SolverTimeS, s.WallS, s.Outcomes)
 		for k, n := range s.Problems {
 			fmt.Printf("    problem x%d: %s\n", n, k)
+		}
+		if os.Getenv("GOSX_FORKS") != "" {
+			type kv struct {
+				k string
+				n int
+			}
+			var l []kv
+			for k, n := range s.ForkSites {
+				l = append(l, kv{k, n})
+			}
+			sort.Slice(l, func(a, b int) bool { return l[a].n > l[b].n })
+			for j, e := range l {
+				if j < 25 {
+					fmt.Printf("    fork x%d: %s\n", e.n, e.k)
+				}
+			}
 		}
 		for _, v := range s.Violations {
 			fmt.Printf("    VIOLATION %s %s: %s tape=%v\n", v.Kind, v.Assert, v.Msg, v.Tape)
